@@ -617,6 +617,23 @@ func init() {
 		"k8s.io/apimachinery/pkg/api/errors.IsForbidden":     icReason("Forbidden"),
 		"k8s.io/apimachinery/pkg/api/errors.IsGone":          icReason("Gone"),
 
+		// hashes are uninterpreted: the same template object gives the same hash, nothing else is assumed
+		repoMod + "/pkg/util.ComputeHash": func(ex *Exec, fr *frame, fn *ssa.Function, args []Value, pos tokenPos) Value {
+			p := args[0].(PtrV)
+			if p.c == nil {
+				ex.raise(fr, pos, "nil pointer dereference (ComputeHash(nil))")
+			}
+			if ex.hashOf == nil {
+				ex.hashOf = map[int]*Term{}
+			}
+			if t, ok := ex.hashOf[p.c.id]; ok {
+				return t
+			}
+			t := ex.fresh("hash", SStr)
+			ex.solver.Send(fmt.Sprintf("(assert (>= (str.len %s) 1))", smtSym(t.s)))
+			ex.hashOf[p.c.id] = t
+			return t
+		},
 		// ---------------- misc ----------------
 		"os.Getenv": func(ex *Exec, fr *frame, fn *ssa.Function, args []Value, pos tokenPos) Value { return mkStr("") },
 		"os.LookupEnv": func(ex *Exec, fr *frame, fn *ssa.Function, args []Value, pos tokenPos) Value {
